@@ -231,4 +231,4 @@ def run_assoc_source(run, P, finder='oscore_find_association'):
         run.instance('R-OSC-ROLE', '%s: with the association found, %s is not read from the session' % (name, '/'.join(sorted(common))))
         run.oblige('R-OSC-ROLE', True, '%s:assoc-source' % name)
         solve(f, Env(), on_event, None, keys, R, key_fn=lambda e: tuple(e.nullf(a) for a in sorted(avars)))
-    run.require(n >= 2 or run.fixture_mode or run.cfg != 'base', 'R-OSC-ROLE(association source): fewer than 2 functions that look up the association found')
+    run.require_count(n >= 2 or run.fixture_mode or run.cfg != 'base', 'R-OSC-ROLE(association source): fewer than 2 functions that look up the association found')
